@@ -900,6 +900,21 @@ fn fill_structural(s: &mut GState, p: &mut Prng, infos: &[Info], events: &[&str]
             }
             s.trans.push(t);
         }
+        // an internal transition from a compound state to one target inside it and one in a
+        // sibling region of an enclosing parallel (domain must then be the common ancestor)
+        if !below.is_empty() && p.chance(1, 4) {
+            let inside = *p.pick(&below);
+            let others: Vec<usize> = all.iter().cloned().filter(|x| compatible(infos, inside, *x) && !is_anc_or_self(infos, me, *x)).collect();
+            if !infos[inside].is_hist && !others.is_empty() {
+                let o = *p.pick(&others);
+                s.trans.insert(0, GTrans {
+                    events: vec![(*p.pick(events)).to_string()],
+                    targets: vec![infos[inside].id.clone(), infos[o].id.clone()],
+                    internal: true,
+                    ..Default::default()
+                });
+            }
+        }
         if p.chance(1, 4) {
             s.onentry.push(vec![GItem::Log("3".to_string())]);
         }
@@ -961,4 +976,143 @@ pub fn gen_structural(p: &mut Prng) -> (GDoc, Vec<String>) {
     let evs = (0..ne).map(|_| (*p.pick(&events)).to_string()).collect();
     let data = VARS.iter().map(|v| (v.to_string(), "0".to_string())).collect();
     (GDoc { late: false, root_init, kids, data, script: None, datamodel: "vdm".to_string() }, evs)
+}
+
+
+// ---------------------------------------------------------------------------------------------
+// Template: leaving and re-entering states that own history pseudo-states.  A state P with a
+// (shallow or deep) history child, whose content is a compound chain and/or parallel regions; events
+// move the regions out of their default sub-states, leave P, and come back via the history state,
+// via P itself, or via a deeper target.
+
+fn two_state_region(id: &mut usize, ev: &mut usize, evs: &mut Vec<String>, p: &mut Prng) -> GState {
+    *id += 1;
+    let rid = format!("r{}", *id);
+    let mut r = st(rid.clone(), Kind::State);
+    let n = p.range(2, 3);
+    let names: Vec<String> = (0..n).map(|i| format!("{}{}", rid, (b'a' + i as u8) as char)).collect();
+    for i in 0..n as usize {
+        let mut x = st(names[i].clone(), Kind::State);
+        *ev += 1;
+        let e = format!("e{}", *ev);
+        evs.push(e.clone());
+        x.trans.push(GTrans { events: vec![e], targets: vec![names[(i + 1) % n as usize].clone()], ..Default::default() });
+        if p.chance(1, 3) {
+            x.onentry.push(vec![GItem::Log("1".to_string())]);
+        }
+        r.kids.push(x);
+    }
+    if p.chance(1, 3) {
+        *id += 1;
+        r.hist.push(GHist { id: format!("h{}", *id), deep: p.chance(1, 2), targets: vec![names[p.below(n) as usize].clone()], content: vec![] });
+    }
+    r
+}
+
+fn hist_body(depth: usize, id: &mut usize, ev: &mut usize, evs: &mut Vec<String>, p: &mut Prng) -> GState {
+    match p.below(if depth >= 2 { 2 } else { 4 }) {
+        0 | 1 => two_state_region(id, ev, evs, p),
+        2 => {
+            // a parallel with 2-3 regions
+            *id += 1;
+            let mut q = st(format!("q{}", *id), Kind::Parallel);
+            let n = p.range(2, 3);
+            for _ in 0..n {
+                q.kids.push(hist_body(depth + 1, id, ev, evs, p));
+            }
+            if p.chance(1, 3) {
+                *id += 1;
+                let t = q.kids[0].id.clone();
+                q.hist.push(GHist { id: format!("h{}", *id), deep: p.chance(1, 2), targets: vec![t], content: vec![] });
+            }
+            q
+        }
+        _ => {
+            // a compound wrapper around a body
+            *id += 1;
+            let mut w = st(format!("w{}", *id), Kind::State);
+            w.kids.push(hist_body(depth + 1, id, ev, evs, p));
+            if p.chance(1, 2) {
+                w.kids.push(two_state_region(id, ev, evs, p));
+            }
+            w
+        }
+    }
+}
+
+fn first_leaf(s: &GState) -> String {
+    if s.kids.is_empty() {
+        s.id.clone()
+    } else {
+        first_leaf(&s.kids[0])
+    }
+}
+
+fn all_ids(s: &GState, out: &mut Vec<String>) {
+    out.push(s.id.clone());
+    for k in &s.kids {
+        all_ids(k, out);
+    }
+}
+
+pub fn gen_history_doc(p: &mut Prng) -> (GDoc, Vec<String>) {
+    let mut id = 0usize;
+    let mut ev = 0usize;
+    let mut evs = vec![];
+    // P: compound (body [+ second child]) or parallel (2 bodies)
+    let mut pst = if p.chance(1, 3) {
+        let mut q = st("P".to_string(), Kind::Parallel);
+        q.kids.push(hist_body(1, &mut id, &mut ev, &mut evs, p));
+        q.kids.push(hist_body(1, &mut id, &mut ev, &mut evs, p));
+        q
+    } else {
+        let mut c = st("P".to_string(), Kind::State);
+        c.kids.push(hist_body(0, &mut id, &mut ev, &mut evs, p));
+        if p.chance(1, 2) {
+            c.kids.push(two_state_region(&mut id, &mut ev, &mut evs, p));
+        }
+        c
+    };
+    let deep = p.chance(2, 3);
+    let mut inner = vec![];
+    for k in &pst.kids {
+        all_ids(k, &mut inner);
+    }
+    let default_target = if deep && p.chance(1, 2) { first_leaf(&pst.kids[0]) } else { pst.kids[0].id.clone() };
+    pst.hist.push(GHist {
+        id: "H".to_string(),
+        deep,
+        targets: vec![default_target],
+        content: if p.chance(1, 2) { vec![GItem::Log("7".to_string())] } else { vec![] },
+    });
+    pst.onentry.push(vec![GItem::Log("8".to_string())]);
+    pst.trans.push(GTrans { events: vec!["x".to_string()], targets: vec!["Out".to_string()], ..Default::default() });
+    let mut out = st("Out".to_string(), Kind::State);
+    out.trans.push(GTrans { events: vec!["y".to_string()], targets: vec!["H".to_string()], ..Default::default() });
+    out.trans.push(GTrans { events: vec!["z".to_string()], targets: vec!["P".to_string()], ..Default::default() });
+    let deeper = inner[p.below(inner.len() as u64) as usize].clone();
+    out.trans.push(GTrans { events: vec!["w".to_string()], targets: vec![deeper], ..Default::default() });
+    // sometimes P's own default entry goes through its history
+    if pst.kind == Kind::State && p.chance(1, 4) {
+        pst.init = Init::Attr(vec!["H".to_string()]);
+    }
+    let start_out = p.chance(1, 3);
+    let kids = if start_out { vec![out, pst] } else { vec![pst, out] };
+    // events: some region moves, leave, come back (y / z / w), more moves, leave, back ...
+    let mut order = vec![];
+    let rounds = p.range(2, 3);
+    for _ in 0..rounds {
+        let k = p.range(0, 4);
+        for _ in 0..k {
+            order.push(evs[p.below(evs.len() as u64) as usize].clone());
+        }
+        order.push("x".to_string());
+        order.push((*p.pick(&["y", "y", "z", "w"])).to_string());
+    }
+    let k = p.range(0, 2);
+    for _ in 0..k {
+        order.push(evs[p.below(evs.len() as u64) as usize].clone());
+    }
+    let data = VARS.iter().map(|v| (v.to_string(), "0".to_string())).collect();
+    (GDoc { late: false, root_init: Init::Default, kids, data, script: None, datamodel: "vdm".to_string() }, order)
 }
